@@ -22,21 +22,54 @@ import (
 // PrecommitWait; rounds and heights that mostly advance, sometimes repeat or go back; durations 0-2 ms). Each request
 // that is later than the last one that fired must come back on the ticker's channel; nothing is demanded of requests
 // that are not later (one-directional).
+// runTicks feeds the requests to a fresh product ticker, waiting for every request that must fire; it returns the index
+// of the first one that did not come back within wait, or -1.
+func runTicks(seq []consensus.VerifTimeoutInfo, wait time.Duration) int {
+	tk := consensus.NewTimeoutTicker()
+	tk.SetLogger(log.New())
+	if err := tk.Start(); err != nil {
+		panic("harness: " + err.Error())
+	}
+	defer tk.Stop()
+	last := *consensus.EmptyTimeoutInfo()
+	for i, ti := range seq {
+		tk.ScheduleTimeout(ti)
+		if !laterThan(ti, last) {
+			// may or may not fire; give a stale one a moment so that it cannot be mistaken for a later request
+			select {
+			case <-tk.Chan():
+			case <-time.After(3 * time.Millisecond):
+			}
+			continue
+		}
+		deadline := time.After(wait)
+		for fired := false; !fired; {
+			select {
+			case got := <-tk.Chan():
+				fired = got.Height == ti.Height && got.Round == ti.Round && got.Step == ti.Step
+			case <-deadline:
+				return i
+			}
+		}
+		last = ti
+	}
+	return -1
+}
+
+func laterThan(ti, last consensus.VerifTimeoutInfo) bool {
+	return ti.Height > last.Height || (ti.Height == last.Height && (ti.Round > last.Round || (ti.Round == last.Round && ti.Step > last.Step)))
+}
+
 func TestTickerFires(t *testing.T) {
 	steps := []cstypes.RoundStepType{cstypes.RoundStepNewHeight, cstypes.RoundStepPropose, cstypes.RoundStepPrevoteWait, cstypes.RoundStepPrecommitWait}
 	wait := time.Duration(ev.Scale("TICK_WAIT_S", 20)) * time.Second
 	rapid.Check(t, func(t *rapid.T) {
-		tk := consensus.NewTimeoutTicker()
-		tk.SetLogger(log.New())
-		if err := tk.Start(); err != nil {
-			t.Fatalf("harness: %v", err)
-		}
-		defer tk.Stop()
-		last := *consensus.EmptyTimeoutInfo()
+		var seq []consensus.VerifTimeoutInfo
 		var logv []string
 		text := func() string { return strings.Join(logv, " ") }
 		h, r := uint64(rapid.IntRange(1, 3).Draw(t, "h0")), uint32(1)
 		failedRounds, demanded := 0, 0
+		last := *consensus.EmptyTimeoutInfo()
 		for i, n := 0, rapid.IntRange(3, 14).Draw(t, "n"); i < n; i++ {
 			// how the position moves: mostly the next step of the same round, sometimes the next round / height,
 			// sometimes an arbitrary earlier or later one
@@ -52,32 +85,23 @@ func TestTickerFires(t *testing.T) {
 				r = uint32(rapid.IntRange(1, 5).Draw(t, "round"))
 			}
 			ti := consensus.VerifTimeoutInfo{Duration: time.Duration(rapid.IntRange(0, 2).Draw(t, "ms")) * time.Millisecond, Height: h, Round: r, Step: st}
-			later := ti.Height > last.Height || (ti.Height == last.Height && (ti.Round > last.Round || (ti.Round == last.Round && ti.Step > last.Step)))
+			later := laterThan(ti, last)
+			if later {
+				demanded++
+				last = ti
+			}
 			logv = append(logv, fmt.Sprintf("%d/%d/%d(%v)", ti.Height, ti.Round, ti.Step, later))
-			tk.ScheduleTimeout(ti)
-			if !later {
-				// may or may not fire; give a stale one a moment so that it cannot be mistaken for a later request
-				select {
-				case <-tk.Chan():
-				case <-time.After(3 * time.Millisecond):
-				}
-				continue
+			seq = append(seq, ti)
+		}
+		if bad := runTicks(seq, wait); bad >= 0 {
+			// a millisecond timer that has not fired after this long: ask again, alone and much more patiently, before
+			// calling it lost (a starved machine delays, it does not lose)
+			if again := runTicks(seq[:bad+1], 6*wait); again == bad {
+				ti := seq[bad]
+				ev.Violation(t, "ticker.scheduled-timeout-never-fired", text(), "timeout %d/%d/%v (%v), request #%d of the sequence and later than everything before it, did not come back (waited %v, then %v on a fresh ticker)", ti.Height, ti.Round, ti.Step, ti.Duration, bad, wait, 6*wait)
+				return
 			}
-			demanded++
-			deadline := time.After(wait)
-			fired := false
-			for !fired {
-				select {
-				case got := <-tk.Chan():
-					if got.Height == ti.Height && got.Round == ti.Round && got.Step == ti.Step {
-						fired = true
-					}
-				case <-deadline:
-					ev.Violation(t, "ticker.scheduled-timeout-never-fired", text(), "timeout %d/%d/%v (%v) was scheduled after %d/%d/%v had fired and did not come back within %v", ti.Height, ti.Round, ti.Step, ti.Duration, last.Height, last.Round, last.Step, wait)
-					return
-				}
-			}
-			last = ti
+			ev.Class("ticker:slow-machine-retry-passed")
 		}
 		ev.Case(failedRounds >= 2 && demanded >= 3, text(), "ticker")
 	})
